@@ -140,12 +140,12 @@ def _inputs():
     for nm, a1, a2 in [("randmio_und", (U10, 2), (Uw9, 3)), ("randmio_dir", (D8, 2), (Dw9, 3)),
                        ("randmio_und_connected", (U10, 2), (Uw9, 2)),
                        ("randmio_dir_connected", (D8, 2), (Dw9, 2)),
-                       ("randmio_und_signed", (Su8, 2), (Su9, 3)),
-                       ("randmio_dir_signed", (Sd8, 2), (Sd9, 3)),
+                       ("randmio_und_signed", (Su8, 1), (Su9, 2)),
+                       ("randmio_dir_signed", (Sd8, 1), (Sd9, 1)),
                        ("randomize_graph_partial_und", (U10, B10, 3), (Uw9, B9, 4)),
                        ("randomizer_bin_und", (U10, 0.6), (U9s, 0.9)),
-                       ("null_model_und_sign", (Fu8, 2, 0.5), (Fu9, 1, 1.0)),
-                       ("null_model_dir_sign", (Fd8, 2, 0.5), (Fd9, 1, 1.0))]:
+                       ("null_model_und_sign", (Fu8, 1, 0.5), (Fu9, 1, 1.0)),
+                       ("null_model_dir_sign", (Fd8, 1, 0.5), (Fd9, 1, 1.0))]:
         add(nm, ref, a1, a2, group="rewiring")
     Dist9 = np.abs(np.arange(9)[:, None] - np.arange(9)[None, :]).astype(float) * 1.5 + 1    # explicit D
     for nm, a1, a2 in [("latmio_und", (U10, 2), (Uw9, 2)), ("latmio_dir", (D8, 2), (Dw9, 2)),
@@ -344,27 +344,55 @@ REC_PROGRAM = [["call", 1, 1, "int", 1], ["call", 1, 1, "RandomState", 1],
                ["call", 1, 1, "RandomState", 1]]
 
 
+def _cached_gen(ctx, cfg, tag, workers):
+    """programs printed by an exhaustive gen run; cached under .cache/ keyed by the text of the model"""
+    import json
+    h = hashlib.sha1()
+    for f in ("RngDiscipline.tla", "MC_RngDiscipline.tla", cfg):
+        h.update(open(os.path.join(core.SPEC, f), "rb").read())
+    cache = os.path.join(core.VERIF, ".cache")
+    os.makedirs(cache, exist_ok=True)
+    path = os.path.join(cache, "c05_%s_%s.json" % (os.path.splitext(cfg)[0], h.hexdigest()[:16]))
+    if os.path.exists(path):
+        with open(path) as f:
+            items = json.load(f)
+        core.log("  gen %-27s items=%d (cached %s)" % (tag, len(items), os.path.basename(path)))
+        return items
+    items = ctx.gen("MC_RngDiscipline.tla", cfg, tag=tag, workers=workers)
+    tmp = path + ".%d.tmp" % os.getpid()
+    with open(tmp, "w") as f:
+        json.dump(items, f)
+    os.replace(tmp, path)
+    return items
+
+
 def programs(ctx):
-    short_cfg = "Gen_RngDiscipline_full3.cfg" if ctx.quick else "Gen_RngDiscipline_full4.cfg"
-    nsim = 60 if ctx.quick else 1200
-    short, longs = ctx.parallel([
-        lambda: ctx.gen("MC_RngDiscipline.tla", short_cfg, tag="gen_short", workers=4),
+    """(exhaustive, sampled): exhaustive = every canonical program of length 3 ending in a call and
+    every program of length <= 5 whose last call ReseedReproduces relates to an earlier one;
+    sampled = TLC-simulated programs of length 5 (+ thorough: all canonical programs of length 4)"""
+    nsim = 60 if ctx.quick else 600
+    thunks = [
+        lambda: ctx.gen("MC_RngDiscipline.tla", "Gen_RngDiscipline_full3.cfg", tag="gen_len3", workers=4),
+        lambda: _cached_gen(ctx, "Gen_RngDiscipline_reseed5.cfg", "gen_reseed5", 8),
         lambda: ctx.gen("MC_RngDiscipline.tla", "Gen_RngDiscipline_full5.cfg", tag="sim_len5", workers=1,
-                        extra=["-simulate", "num=%d" % nsim, "-depth", "6", "-seed", str(ctx.seed + 1)])],
-        width=2)
+                        extra=["-simulate", "num=%d" % nsim, "-depth", "6", "-seed", str(ctx.seed + 1)])]
+    if not ctx.quick:
+        thunks.append(lambda: _cached_gen(ctx, "Gen_RngDiscipline_full4.cfg", "gen_len4", 8))
+    out = ctx.parallel(thunks, width=4)
     rng = random.Random(ctx.seed)
     seen, uniq = set(), []
-    for p in longs:
+    for p in out[2]:
         k = str(p)
         if k not in seen:
             seen.add(k)
             uniq.append(p)
-    want = 150 if ctx.quick else 6000
+    want = 150 if ctx.quick else 1500
     if len(uniq) > want:
         uniq = rng.sample(uniq, want)
-    if not short or not uniq:
+    exhaustive = out[0] + [p for p in out[1] if len(p) > 3]
+    if not out[0] or not out[1] or not uniq:
         raise core.MachineryError("the model generated no caller program")
-    return short, uniq
+    return exhaustive, uniq, (out[3] if not ctx.quick else [])
 
 
 def partner_of(name, k):
@@ -383,7 +411,10 @@ def make_job(rng, name, k, program, kind="hist"):
                 seeds=s, boot=rng.randrange(2 ** 31), kind=kind, focus="all")
 
 
-def build_jobs(ctx, short, longs):
+LEN4_PER_FUNCTION = 5000       # thorough: every routine runs a different sample of the length-4 programs
+
+
+def build_jobs(ctx, short, longs, len4=()):
     rng = random.Random(ctx.seed + 5)
     cap = SLOW_QUICK if ctx.quick else SLOW_THOROUGH
     jobs = []
@@ -392,8 +423,10 @@ def build_jobs(ctx, short, longs):
         if only and name not in only:
             continue
         progs = list(short) + list(longs)
+        if len4:
+            progs += rng.sample(list(len4), min(len(len4), LEN4_PER_FUNCTION))
         if name in cap and len(progs) > cap[name]:
-            progs = longs[:cap[name] // 4] + rng.sample(short, cap[name] - min(len(longs), cap[name] // 4))
+            progs = rng.sample(progs, cap[name])
         for p in progs:
             jobs.append(make_job(rng, name, k, p))
         jobs.append(make_job(rng, name, k, REC_PROGRAM, kind="rec"))
@@ -507,43 +540,30 @@ def static_scan():
     return hits
 
 
+QUICK_MODELS = [("MC_RngDiscipline_good_mixed3.cfg", 4), ("MC_RngDiscipline_good_canon4.cfg", 4),
+                ("MC_RngDiscipline_matrix_f1_len4.cfg", 1)]
+THOROUGH_MODELS = [("MC_RngDiscipline_good_mixed4.cfg", 8), ("MC_RngDiscipline_good_canon5.cfg", 8),
+                   ("MC_RngDiscipline_matrix_f2_len4.cfg", 1), ("MC_RngDiscipline_matrix_f1_len5.cfg", 1)]
+
+
 def run(ctx):
-    mcfg = ("MC_RngDiscipline_good.cfg", "MC_RngDiscipline_matrix.cfg") if ctx.quick else \
-           ("MC_RngDiscipline_good_thorough.cfg", "MC_RngDiscipline_matrix_thorough.cfg")
-    short, longs = programs(ctx)
-    # the two model-checking runs proceed while the real code is executed
-    mc_out = {}
-
-    def mc_thread():
-        try:
-            mc_out["res"] = ctx.parallel([
-                lambda: ctx.mc("MC_RngDiscipline.tla", mcfg[0], tag="mc_good", workers=8),
-                # one worker: the violation matrix is collected in TLC registers, which are per worker
-                lambda: ctx.mc("MC_RngDiscipline.tla", mcfg[1], tag="mc_matrix", workers=1)], width=2)
-        except BaseException as e:
-            mc_out["err"] = e
-    th = threading.Thread(target=mc_thread)
-    th.start()
-    try:
-        return _run_code(ctx, short, longs, th, mc_out)
-    finally:
-        th.join()
-
-
-def _run_code(ctx, short, longs, th, mc_out):
+    # matrix_*: one worker, the violation matrix is collected in TLC registers, which are per worker
+    models = QUICK_MODELS if ctx.quick else THOROUGH_MODELS
+    thunks = [(lambda c=c, w=w: ctx.mc("MC_RngDiscipline.tla", c, tag="mc_" + c[17:-4], workers=w))
+              for c, w in models]
+    res = ctx.parallel(thunks + [lambda: programs(ctx)], width=len(thunks) + 1)
+    short, longs, len4 = res[-1]
+    for (c, w), r in zip(models, res):
+        if "matrix" in c and r is not None:
+            m = re.search(r'<<"matrix", (.*)>>', r["out"])
+            ctx.extra["model_violation_matrix"] = m.group(1) if m else "?"
     found, failed = discover()
     covered = {_inputs()[n]["module"] + "." + _inputs()[n]["attr"]: n for n in _inputs()}
     missing = [f for f in found if f not in covered and f not in EXCLUDED]
     if missing:
         raise core.MachineryError("seed-accepting functions without inputs in the C05 table: %s" % missing)
-    jobs = build_jobs(ctx, short, longs)
+    jobs = build_jobs(ctx, short, longs, len4)
     recs = run_all(jobs)
-    th.join()
-    if "err" in mc_out:
-        raise mc_out["err"]
-    if mc_out["res"][1] is not None:
-        m = re.search(r'<<"matrix", (.*)>>', mc_out["res"][1]["out"])
-        ctx.extra["model_violation_matrix"] = m.group(1) if m else "?"
     verdicts = validate_parallel(ctx, recs, "all")
     check_env(verdicts, recs)
     ctx.judge(jobs, recs, verdicts, what=what)
@@ -590,12 +610,15 @@ def _run_code(ctx, short, longs, th, mc_out):
                                     python_random_touched=any(e["pb"] != e["pa"] for e in r["events"]))
     ctx.nontrivial = len(nontriv)
     ctx.exhaustive = True
-    ctx.rule = ("every renaming-canonical caller program of length %d ending in a call (TLC-enumerated, %d) and "
-                "%d TLC-simulated programs of length 5, each run against every one of the %d seed-accepting "
+    ctx.rule = ("every renaming-canonical caller program of length 3 ending in a call and every program of length "
+                "<= 5 whose last call ReseedReproduces relates to an earlier one (TLC-enumerated, %d), %d "
+                "TLC-simulated programs of length 5%s, each run against every one of the %d seed-accepting "
                 "routines on two small inputs (slow routines: a seeded sample of the programs, see "
                 "records_per_function); non-trivial = distinct (routine, program) containing two calls of the "
                 "same routine and input that a functional clause relates" % (
-                    3 if ctx.quick else 4, len(short), len(longs), len(_inputs())))
+                    len(short), len(longs),
+                    "" if ctx.quick else " and per routine a seeded sample of %d of the %d canonical programs of "
+                    "length 4" % (min(len(len4), LEN4_PER_FUNCTION), len(len4)), len(_inputs())))
     ctx.extra["seed_accepting_functions_found"] = found
     ctx.extra["functions_excluded"] = EXCLUDED
     ctx.extra["modules_not_importable"] = failed
@@ -604,6 +627,8 @@ def _run_code(ctx, short, longs, th, mc_out):
                                      for k, v in sorted(sens.items())}
     ctx.extra["streams_used_under_RecordingRNG"] = streams
     ctx.extra["calls_that_raise"] = raised
+    ctx.extra["timed_out_histories"] = [dict(fn=j["fn"], partner=j["partner"], program=j["program"], seeds=j["seeds"])
+                                        for j, r in zip(jobs, recs) if r.get("timeout")][:20]
     ctx.extra["static_scan_information_only"] = static_scan()
     ctx.extra["notes"] = [
         "nbs_parallel.nbs_bct with an int seed re-seeds every permutation identically (k copies of one permutation); "
